@@ -244,6 +244,7 @@ func cmdVF(args []string) int {
 }
 
 type aggObl struct {
+	maxTime float64 // slowest single instance (s)
 	status  string
 	n       int
 	time    float64
@@ -265,6 +266,9 @@ func aggregate(obls []*Obligation) map[string]*aggObl {
 		}
 		a.n++
 		a.time += o.Result.Time
+		if o.Result.Time > a.maxTime && !o.Invert {
+			a.maxTime = o.Result.Time
+		}
 		st := o.Result.Status
 		if st == "" {
 			st = "unknown"
